@@ -29,4 +29,4 @@ def collect():
     return claims
 
 
-HOOK_COMMITS = ["a712e9f", "7431040", "c80c6b7"]
+HOOK_COMMITS = ["a712e9f", "7431040", "c80c6b7", "4a0f536"]
